@@ -38,6 +38,7 @@ type Contract struct {
 	Assumes   []*Clause
 	TrustedProps []string
 	modRaw       []scopedMod
+	Checks    []*Clause // "checks e": proved at every return like a postcondition (may name the function's own locals), not exported to callers
 	Applies   []*Clause // "apply x.ghostLemma(args)": lemma methods (verified ghost code) instantiated at function entry
 	Modifies  []string
 	HasMod    bool
@@ -88,7 +89,7 @@ type TypeSpec struct {
 
 var clauseKeywords = map[string]bool{"property": true, "requires": true, "ensures": true, "modifies": true,
 	"panics": true, "loop": true, "invariant": true, "decreases": true, "exit": true, "trusted": true, "pure": true, "reads": true, "mode": true,
-	"nosafety": true, "utf8": true, "order": true, "atcall": true, "assumes": true, "apply": true, "ghostfield": true, "holds": true, "nowrap": true, "exclusive": true, "inline": true, "forall": true, "guards": true, "lockinv": true, "ghost": true, "unroll": true}
+	"nosafety": true, "utf8": true, "order": true, "atcall": true, "assumes": true, "apply": true, "checks": true, "ghostfield": true, "holds": true, "nowrap": true, "exclusive": true, "inline": true, "forall": true, "guards": true, "lockinv": true, "ghost": true, "unroll": true}
 
 // rewriteImplies turns `A ==> B` (lowest precedence, right associative, split at
 // bracket depth 0) into `(!(A) || (B))`, recursively inside brackets too.
@@ -413,6 +414,10 @@ func (e *Engine) parseContractFile(p *packages.Package, f *ast.File, fname strin
 				cur.Requires = append(cur.Requires, cl)
 			} else if curLemma != nil {
 				curLemma.Requires = append(curLemma.Requires, cl)
+			}
+		case "checks":
+			if cur != nil {
+				cur.Checks = append(cur.Checks, e.parseClause(rest, where))
 			}
 		case "apply":
 			// apply recv.ghostLemma(args): the contract of a verified ghost method (a lemma proved
